@@ -1,6 +1,6 @@
 (** C02 - operators group exactly by the documented precedence and associativity.
     Part 1 (generated facts, re-checked on every run): the built-in table dumped from the impl IS the documented table. *)
-From EE Require Import Chars OpTable Names Token Ast Parser ParserSteps GroupingSmall PrattRoundTrip ImplTable DocTable.
+From EE Require Import Chars OpTable Names Token Ast Parser ParserSteps GroupingSmall Printer Etoks PrattFull ImplTable DocTable.
 Open Scope N_scope.
 
 (* every row of README.md's BinaryExpression table is registered with that precedence; every registered infix operator is a
@@ -80,24 +80,33 @@ Theorem C02_builtins_wf :
 Proof. vm_compute. repeat split. Qed.
 Print Assumptions C02_builtins_wf.
 
-(* THE GROUPING THEOREM (infix fragment): for an arbitrary operator table and every tree of names, literals and infix
-   operators - of any size and shape within the parser's depth limit - writing the tree down with parentheses exactly where
-   the documented rule demands them (left operand: unless every operator on its right spine has r_bp above the parent's l_bp;
-   right operand: unless every operator on its left spine has l_bp above the parent's r_bp) and parsing the tokens gives
-   back that very tree. So the binding powers 2p / 2p+1 / 2p-1 of the documented precedence p and associativity decide every
-   grouping, not only those of two- or three-operator samples. *)
-Theorem C02_round_trip : forall tbl t, frag tbl t = true -> hgt t -> room tbl 0 t ->
-  parse_tokens tbl TmEof (unparse tbl t) = Ok t.
-Proof. exact parse_unparse. Qed.
+(* THE GROUPING THEOREM, whole expression language. For an arbitrary operator table in which `?` and `:` are not registered
+   operators, and every well-formed tree [t] - names, literals, infix operators, `x not OP y`, prefix and postfix operators,
+   conditionals, calls, lists and maps, of any size and shape within the parser's depth limit - the token sequence [etoks t]
+   (the printer model's output, token by token: parentheses exactly where the documented rule demands them - a left operand
+   unless every operator on its right spine has r_bp above the parent's l_bp, a right operand unless every operator on its
+   left spine has l_bp above the parent's r_bp, a conditional as operand, an operator expression under a prefix or postfix
+   operator) is parsed back to exactly [t], every token consumed.
+   So the binding powers 2p / 2p+1 / 2p-1 of the documented precedence p and associativity decide EVERY grouping, prefix binds
+   tighter than infix, postfix tighter than prefix, the conditional is loosest and right-nested, `x not OP y` is not(x OP y),
+   and parentheses override - for all trees, not for the two- or three-operator samples above. *)
+Theorem C02_round_trip : forall tbl t, tbl_ok tbl -> wf tbl t = true -> hgt t -> room tbl 0 t ->
+  parse_tokens tbl TmEof (etoks tbl t) = Ok t.
+Proof. intros tbl t H. exact (parse_etoks tbl H t). Qed.
 Print Assumptions C02_round_trip.
 
-(* the premises are met by real trees over the built-in table: 1 + 2 * 3 - 4 and (1 + 2) * 3 *)
+(* the premises are met by the built-in table and by real trees:
+   - a ++ * (1 + 2) ? [1, min(2)] : {k: x not in y}    and    1 + 2 * 3 - 4 *)
 Example C02_round_trip_example :
-  let one := ARef [49] in
-  let t1 := ABinary n_sub (ABinary n_add one (ABinary n_mul one one)) one in
-  let t2 := ABinary n_mul (ABinary n_add one one) one in
-  frag builtin_table t1 = true /\ frag builtin_table t2 = true /\ need builtin_table t1 = 3 /\
-  unparse builtin_table t2 = [TDelim DLParen; TRef [49]; TOp n_add; TRef [49]; TDelim DRParen; TOp n_mul; TRef [49]] /\
-  parse_tokens builtin_table TmEof (unparse builtin_table t1) = Ok t1.
+  let one := ALit (LNum (of_Z 1)) in
+  let a := ARef [97] in
+  let t1 := ATernary (ABinary n_mul (AUnary n_sub (APostfix a n_inc)) (ABinary n_add one one))
+                     (AList [one; AFunc n_min [one]])
+                     (AMap [(ARef [107], AUnary s_not (ABinary n_in a a))]) in
+  let t2 := ABinary n_sub (ABinary n_add one (ABinary n_mul one one)) one in
+  tbl_ok builtin_table /\ wf builtin_table t1 = true /\ wf builtin_table t2 = true /\
+  need builtin_table t1 = 6 /\ need builtin_table t2 = 3 /\
+  length (etoks builtin_table t1) = 27%nat /\
+  parse_tokens builtin_table TmEof (etoks builtin_table t1) = Ok t1.
 Proof. vm_compute. repeat split. Qed.
 Print Assumptions C02_round_trip_example.
